@@ -5,8 +5,12 @@ open Sekai.Spend Sekai.Util Sekai.Driver.Spend
 
 def view (st : St) : Collect.State :=
   { sp := st.sp, colls := st.colls, contribs := st.contribs, maxOutputs := st.maxOutputs, minClaimPeriod := st.minClaimPeriod,
-    minBond := st.minBond, feeRate := fun d => st.feeRates.lookup d }
-def back (st : St) (c : Collect.State) : St := { st with sp := c.sp, colls := c.colls, contribs := c.contribs }
+    minBond := st.minBond, feeRate := fun d => st.feeRates.lookup d,
+    rewards := fun a => match st.crewards.lookup a with | some l => Amt.ofList l | none => Amt.zero,
+    minBondingTime := st.minBondingTime }
+def back (st : St) (c : Collect.State) : St :=
+  { st with sp := c.sp, colls := c.colls, contribs := c.contribs,
+            crewards := st.crewards.map (fun e => (e.1, (c.sp.voc.map (fun d => (d, c.rewards e.1 d))).filter (fun x => x.2 != 0))) }
 
 def apply (st : St) (r : Except Err Collect.State) : St × String :=
   match r with
@@ -22,7 +26,7 @@ def step (st : St) (toks : List String) : St × String :=
   match toks with
   | "props" :: rest =>
     match lookupNat rest "maxout", lookupNat rest "minperiod", lookupNat rest "minbond" with
-    | some a, some b, some c => ({ st with maxOutputs := a, minClaimPeriod := b, minBond := c }, "ok")
+    | some a, some b, some c => ({ st with maxOutputs := a, minClaimPeriod := b, minBond := c, minBondingTime := (lookupNat rest "minbt").getD st.minBondingTime }, "ok")
     | _, _, _ => (st, "bad-op")
   | "rate" :: rest =>
     match lookupNat rest "d", lookupInt rest "r" with
@@ -33,7 +37,21 @@ def step (st : St) (toks : List String) : St × String :=
           (lookup rest "any").bind parse01, (lookup rest "dr").bind natList?, (lookup rest "da").bind natList? with
     | some n, some a, some bonds, some np, some cp, some any, some dr, some da =>
       let (st, id) := cid st n
-      apply st (Collect.create (view st) a id bonds { nPools := np, claimPeriod := cp, depAny := any, depRoles := dr, depAccounts := da })
+      -- optional: the weighted spending pools by name (`pools=rich:500000000000000000,…`), claim window and block time
+      let plist : List (String × Int) := match lookup rest "pools" with
+        | some ps => if ps == "-" then [] else (ps.splitOn ",").filterMap (fun t => match t.splitOn ":" with
+            | [n, w] => (int? w).map (fun w => (n, w))
+            | _ => none)
+        | none => []
+      let (st, pools) := plist.foldl (fun (acc : St × List (Nat × Int)) e =>
+          let (names, pid) := internName acc.1.names e.1
+          ({ acc.1 with names := names }, acc.2 ++ [(pid, e.2)])) (st, [])
+      let cs := (lookupNat rest "cs").getD 0
+      let ce := (lookupNat rest "ce").getD 0
+      let t0 := (lookupNat rest "t").getD 0
+      let args : Collect.CreateArgs :=
+        { nPools := np, claimPeriod := cp, depAny := any, depRoles := dr, depAccounts := da, pools := pools, claimStart := cs, claimEnd := ce, now := t0 }
+      apply st (Collect.create (view st) a id bonds args)
     | _, _, _, _, _, _, _, _ => (st, "bad-op")
   | "bond" :: rest =>
     match lookup rest "name", lookupNat rest "a", (lookup rest "bonds").bind coins? with
@@ -61,6 +79,20 @@ def step (st : St) (toks : List String) : St × String :=
                    sp := { st.sp with bank := bank' } }, "ok")
       | _, _ => (st, "err")
     | _, _, _ => (st, "bad-op")
+  | "reward" :: rest =>     -- test set-up: x/multistaking records rewards for an account of the collective; `from` funds the fee collector
+    match lookup rest "name", lookup rest "side", lookupNat rest "from", (lookup rest "coins").bind coins? with
+    | some n, some side, some a, some cs =>
+      let (st, id) := cid st n
+      let addr := if side == "d" then Collect.donAddr id else Collect.collAddr id
+      match st.sp.bank.send a Collect.FEE cs with
+      | .ok bank' => ({ st with sp := { st.sp with bank := bank' }, crewards := (addr, cs) :: st.crewards.filter (fun e => e.1 != addr) }, "ok")
+      | .error _ => (st, "err")
+    | _, _, _, _ => (st, "bad-op")
+  | "endblock" :: rest =>
+    match lookupNat rest "t" with
+    | some t => apply st (Collect.endBlock (view st) t)
+    | none => (st, "bad-op")
+  | ["obs", "fee"] => (st, showAmt st.sp.voc (st.sp.bank Collect.FEE))
   | "obs" :: "c" :: rest =>
     match lookup rest "name" with
     | some n => match (nameId st.cnames n).bind (Collect.findColl st.colls) with
